@@ -746,6 +746,7 @@ def run(rep, tier_, rng):
     Ofiles = {name: emit_O(rundir, name, V, mtop, Q7, tab) for name, (Q7, reach7, tab, mtop, V) in oth.items()}
     Ofut = {name: pool.submit(coqc, Ofiles[name].path, tmo) for name in oth}
 
+    T = {"tables_and_emit": round(time.time() - t0, 1)}; tm = time.time()
     # ---- (c) correspondence of the memo state machine
     nseq = 40 if tier_ == "quick" else 150
     corr_stats = {}; corr_samples = {}
@@ -756,6 +757,7 @@ def run(rep, tier_, rng):
         short_ = [t for t in traces if max(t[0]) <= (Q if tier_ == "quick" else 1500)]
         corr_samples[base] = rng.sample(short_, min(k, len(short_)))
 
+    T["memo_sequences"] = round(time.time() - tm, 1); tm = time.time()
     # ---- (d) public API
     api_stats = {}; api_samples = {}
     for name, cterm, D, base in ELEM:
@@ -763,6 +765,7 @@ def run(rep, tier_, rng):
         st, smp = api_sweep(rep, rng, name, D, base, A, K, Q, tabs[base], tier_, mirrors[name]["bad_entries"])
         api_stats[name] = st; api_samples[name] = smp
 
+    T["api_sweep"] = round(time.time() - tm, 1); tm = time.time()
     # ---- (f) def_mpf_constant against its model on synthetic fixed-point values
     Dfile, dstats = defconst_correspondence(rep, rng, tier_, rundir)
     Dfut = pool.submit(coqc, Dfile.path, tmo)
@@ -773,6 +776,7 @@ def run(rep, tier_, rng):
         Sfiles[name] = emit_S(rundir, name, D, base, corr_samples.get(name, []) if D == 1 else [], api_samples[name])
         Sfut[name] = pool.submit(after_T, base, Sfiles[name].path)
 
+    T["defconst_and_samples_emit"] = round(time.time() - tm, 1); tm = time.time()
     # ---- (e) observed final values of the other seven
     obs = {}
     for name, (Q7, reach7, tab, mtop, V) in oth.items():
@@ -780,6 +784,7 @@ def run(rep, tier_, rng):
         obs[name] = {"evaluations": n, "max_ulps_from_top_value": round(worst, 4), "Q": Q7, "P": Q7 - 20, "table_entries": len(tab),
                      "top_precision": mtop}
 
+    T["others_observe"] = round(time.time() - tm, 1); tm = time.time()
     # ---- collect Coq results
     obligations = static_thms; discharged = static_thms
     bad_static = sorted(a for a in static_ax if a not in ALLOWED_AXIOMS)
@@ -845,6 +850,7 @@ def run(rep, tier_, rng):
                 rep.violation("C17 %s: consistency certificate failed (%s)" % (name, badl),
                               {"theorem": "O_%s.v: %s" % (name, badl), "log": r["out"][-1500:]}, no_input=True)
     pool.shutdown()
+    T["waiting_for_coq"] = round(time.time() - tm, 1)
     bad_run = sorted(a for a in run_axioms if a not in ALLOWED_AXIOMS and not a.startswith(("Uint63.", "PrimInt63.", "PrimFloat.", "FloatAxioms.", "Sint63.")))
     if bad_run:
         rep.violation("C17: unexpected axioms under the per-run theorems", {"theorem": "Print Assumptions", "axioms": bad_run}, no_input=True)
@@ -886,7 +892,7 @@ def run(rep, tier_, rng):
         "static_theorems": ["memo_inv", "memo_served", "memo_history_independent", "encl_floor", "encl_frac", "def_constant_round",
                             "def_constant_brackets", "const_all_histories", "const_brackets", "memo_consistent"],
         "per_constant": per_const, "memo_correspondence": corr_stats, "api": api_stats, "def_mpf_constant_correspondence": dstats,
-        "other_seven": cons, "table_read_wall_s": round(t_tab, 1), "wall_s": round(time.time() - t0, 1), "run_dir": rundir,
+        "other_seven": cons, "table_read_wall_s": round(t_tab, 1), "phase_wall_s": T, "wall_s": round(time.time() - t0, 1), "run_dir": rundir,
     }
     rep.assumptions = list(ASSUMPTIONS)
 
